@@ -11,7 +11,11 @@ import TinsModel.Ack.Icl
   `conforming a0 [] h` is the hypothesis of the property (ACK never moves backwards, blocks strictly above it, a later
   ACK never inside an earlier block — i.e. what a receiver emits, `SpecLemmas.cumAck_mono` /
   `later_ack_not_in_block` — and everything the observer compares within half the sequence space).
-  Helper lemmas live in `TinsModel/Ack/{Lemmas,Refine,SpecLemmas}.lean`.
+  Helper lemmas live in `TinsModel/Ack/{Lemmas,Canon,Refine,SpecLemmas,WireLemmas,Safety,Icl}.lean`.
+
+  Second half of the file: the same statements *from wire bytes* (`ack_refines_wire`, composing the Transport family's
+  model of `TCP::TCP(buffer,size)` / `sack()`), the decoder facts, the safety part for all histories and all byte
+  strings, and the explicit interval-set contract.
 -/
 namespace Tins.Props.C19
 open Tins Tins.Ack Tins.Ack.Spec Tins.Wire.Transport
